@@ -149,6 +149,7 @@ def _run_all(tasks, btasks, jobs, tasks_per_worker=8):
         return {"name": task[0], "kind": b.kind, "bound": b.bound, "evaluations": 0, "violations": [], "undecided": ["worker: " + why]}
 
     workers = []
+    spawn_failures = 0
     qi = 0
     n_total = len(queue)
     n_done = 0
@@ -159,12 +160,30 @@ def _run_all(tasks, btasks, jobs, tasks_per_worker=8):
             if w is None:
                 if len(workers) >= jobs:
                     break
-                w = _Worker(ctx)
+                try:
+                    w = _Worker(ctx)
+                except OSError:
+                    # the machine cannot give us another process right now (fork: EAGAIN / ENOMEM): go on with
+                    # the workers there are; with none at all, wait a little and try again
+                    if workers:
+                        break
+                    spawn_failures += 1
+                    if spawn_failures > 60:
+                        raise
+                    time.sleep(5)
+                    continue
                 workers.append(w)
             kind, idx, task = queue[qi]
             qi += 1
             w.job = (kind, idx, task, time.time(), limit_for(kind, task))
-            w.conn.send((kind, task))
+            try:
+                w.conn.send((kind, task))
+            except (OSError, ValueError):
+                # the worker went away between two tasks: its task is handed to the next worker
+                qi -= 1
+                w.job = None
+                w.stop(kill=True)
+                workers.remove(w)
         busy = [w for w in workers if w.job is not None]
         ready = mp_wait([w.conn for w in busy], timeout=5)
         now = time.time()
